@@ -501,7 +501,8 @@ theorem calls_deleters_collectors_safe {K : Type} [DecidableEq K] (h : List Nat 
 /-- PARTIAL (what is missing: collector threads next to WRITERS — that part is false of the current code, see
     the witnesses above; collectors next to deleters only are covered by `concurrent_deleters_collectors_safe`).
     For EVERY interleaving of the store steps of any number
-    of writers and deleters — overlapping content, in any phase (`ThOk`: no `gc`/`full_gc` thread, keys a
+    of writers, deleters and metadata updaters (`set_meta`, `update_metadata`, `tag`, `link`: get the record, put
+    it back) — overlapping content, in any phase (`ThOk`: no `gc`/`full_gc` thread, keys a
     writer already pushed are present; freshly started threads qualify) — every existing artifact keeps all
     its chunks: without a collector no step ever removes a chunk record.  (Refcounts may still be lost,
     see `concurrent_lost_update_witness`; the damage needs a later collector.) -/
@@ -565,6 +566,21 @@ theorem concurrent_double_delete_witness :
     refsOf [1] s0.chunks = 2 ∧ r.2.all Th.isDone = true ∧ refsOf [1] r.1.chunks = 0 ∧ occ [1] r.1.arts = 1 ∧
     get r.1 1 = .ok [1] ∧ get s2 1 = .error .chunkMissing := by decide
 
+/-- OUTSIDE the property's quantifier (it names writers and deleters), recorded because the consequence is a
+    collected live chunk: a metadata update (`set_meta`: get the record, put it back) that overlaps a `delete` of
+    the same artifact re-creates the metadata record after the deleter has decremented its chunks; the artifact
+    exists again, its chunks have 0 references, the next `gc_cycle` removes them.  Replayed on the real store
+    (`conc.directed` update-resurrects-deleted). -/
+theorem concurrent_update_resurrects_deleted_witness :
+    let s0 := run hid cfg1 State.init [.put 1 [1]]
+    let ths : List (Th (List Nat)) := [Th.toucher 0, Th.deleter 0]
+    let r := runCalls hid s0 ths [0, 1, 1, 1, 1, 0]
+    let s2 := (gcSel 1000 (fun _ => true) r.1).1
+    callTrace hid s0 ths [0, 1, 1, 1, 1, 0] =
+      [some (.getM 0), some (.getM 0), some (.getC [1]), some (.putC [1]), some (.delM 0), some (.putM 0)] ∧
+    r.2.all Th.isDone = true ∧ existsArt r.1 0 = true ∧ refsOf [1] r.1.chunks = 0 ∧ get r.1 0 = .ok [1] ∧
+    existsArt s2 0 = true ∧ get s2 0 = .error .chunkMissing := by decide
+
 /-! non-vacuity -/
 -- two deleters of different artifacts, a gc_cycle and a full_gc on a store with shared chunks and an orphan
 example : let ths : List (Th (List Nat)) := [Th.deleter 0, Th.deleter 1, Th.gc 5, Th.fullGc]
@@ -595,11 +611,11 @@ example : let s := run hid cfg2 State.init [.put 0 [1, 2, 3, 4, 5], .put 0 [1, 2
 example : let s := run hid cfg2 State.init [.put 0 [1, 2, 3]]
     let r : Reader (List Nat) := ⟨[[1, 2], [3]], 2, some [3], 1, 3, 3, [1, 2, 3]⟩
     (rRead s.chunks r 4).1 = .ok [] := by decide
-example : ∀ th ∈ [Th.writer 0 0 [[1], [1]], Th.writer 1 0 [[1]], Th.deleter 0],
+example : ∀ th ∈ [Th.writer 0 0 [[1], [1]], Th.writer 1 0 [[1]], Th.deleter 0, Th.toucher 0],
     ThOk hid (State.init : State (List Nat)) th := by
   intro th hth
   simp only [List.mem_cons, List.not_mem_nil, or_false] at hth
-  rcases hth with e | e | e <;> subst e <;> simp [Th.writer, Th.deleter, ThOk]
+  rcases hth with e | e | e | e <;> subst e <;> simp [Th.writer, Th.deleter, Th.toucher, ThOk]
 example : HashInj hid := hid_inj
 -- an abandoned writer leaves slack (refs 1, no artifact): `gc_cycle` never takes the record, `full_gc` does
 example : let s := run hid cfg2 State.init [.abandon 0 [[1, 2, 3]]]
